@@ -450,7 +450,12 @@ fn run_case(out: &mut Out, r: &mut Rng, mode: Mode, np: usize, nkeys: u8, nops: 
             c.step(p, mode);
         }
     }
-    // quiescence: a fresh store loads the table
+    finish_case(c, out, mode, nkeys, label);
+}
+
+/// quiescence (a fresh store loads the table), closing oracle checks, emission of the case
+fn finish_case(mut c: Case, out: &mut Out, mode: Mode, nkeys: u8, label: &str) {
+    let total = c.held.len();
     let reader = total - 1;
     c.start(reader, Op::Get, true);
     while matches!(c.sched.state(reader), PState::At(..)) { c.step(reader, mode); }
@@ -480,6 +485,7 @@ fn run_case(out: &mut Out, r: &mut Rng, mode: Mode, np: usize, nkeys: u8, nops: 
     let nev = c.req.len();
     out.case(&request, &answer);
     out.tally("mode", &format!("{mode:?}"));
+    out.tally("stream", if label.starts_with("all:") { "exhaustive" } else { label });
     out.tally("max_heads", &maxh.min(4).to_string());
     out.tally("events", &format!("{}0s", nev / 10));
     if diverged || squashed { out.nontrivial(&request); }
@@ -487,11 +493,53 @@ fn run_case(out: &mut Out, r: &mut Rng, mode: Mode, np: usize, nkeys: u8, nops: 
     if squashed { out.tally("shape", "stacked"); }
     match failed {
         None => out.oracle_ok(),
-        Some((sig, detail)) => out.oracle_fail(&sig, format!("[{label} {mode:?}] {detail}; replay: C21 {request}")),
+        Some((sig, detail)) => { out.tally("oracle_failure_signature", &sig); out.oracle_fail(&sig, format!("[{label} {mode:?}] {detail}; replay: C21 {request}")) },
     }
 }
 
 fn b(x: u8) -> Vec<u8> { vec![x] }
+
+/// All schedules (stateless DFS, re-executing from scratch) of fixed per-process programs after a
+/// sequential `setup`, with at most `max_crashes` crashes.  Returns (cases run, completed?).
+fn exhaustive(out: &mut Out, mode: Mode, nkeys: u8, setup: &[(usize, Op)], programs: &[Vec<Op>], max_crashes: usize, budget: usize, label: &str) -> (usize, bool) {
+    let np = programs.len();
+    let mut prefix: Vec<usize> = vec![];
+    let mut runs = 0;
+    loop {
+        if runs >= budget { return (runs, false); }
+        let tmp = fast_tempdir();
+        let mut c = Case::new(np + 1, nkeys, tmp.path());
+        for (p, op) in setup { c.start(*p, op.clone(), false); while matches!(c.sched.state(*p), PState::At(..)) { c.step(*p, mode); } }
+        let mut next_op = vec![0usize; np];
+        let mut choices: Vec<(usize, usize)> = vec![];
+        let mut crashes = 0;
+        loop {
+            for p in 0..np {
+                if !matches!(c.sched.state(p), PState::At(..)) && next_op[p] < programs[p].len() {
+                    let op = programs[p][next_op[p]].clone(); next_op[p] += 1; c.start(p, op, false);
+                }
+            }
+            let mut actions: Vec<(bool, usize)> = (0..np).filter(|p| c.can_step(*p, mode)).map(|p| (false, p)).collect();
+            if crashes < max_crashes { actions.extend((0..np).filter(|p| matches!(c.sched.state(*p), PState::At(..))).map(|p| (true, p))); }
+            if actions.is_empty() { break; }
+            let i = choices.len();
+            let pick = if i < prefix.len() { prefix[i] } else { 0 };
+            choices.push((pick, actions.len()));
+            let (is_crash, p) = actions[pick];
+            if is_crash { crashes += 1; c.crash(p); next_op[p] = programs[p].len(); } else { c.step(p, mode); }
+        }
+        finish_case(c, out, mode, nkeys, label);
+        runs += 1;
+        let mut j = choices.len();
+        loop {
+            if j == 0 { return (runs, true); }
+            j -= 1;
+            if choices[j].0 + 1 < choices[j].1 { break; }
+        }
+        prefix = choices[..j].iter().map(|ch| ch.0).collect();
+        prefix.push(choices[j].0 + 1);
+    }
+}
 
 /// F8 (DESIGN.md §8): three saves, two handles, then a fresh load.
 fn f8_script() -> Vec<Ev> {
@@ -526,6 +574,36 @@ pub fn run(cfg: &Cfg, out: &mut Out) {
     // fixed replays first (the minimal reproducers of the two finding classes)
     run_case(out, &mut r, Mode::Seq, 2, 6, 0, Some(f8_script()), "f8-replay");
     run_case(out, &mut r, Mode::Working, 2, 6, 0, Some(crossing_script()), "crossing-replay");
+    // every schedule of two processes for a few program pairs (hook-point granularity)
+    {
+        use Op::*;
+        let e = |v: &[(u8, u8)]| -> Entries { v.iter().map(|(k, x)| (*k, b(*x))).collect() };
+        // P0 creates the base {0→1}; P1 loads it
+        let base: Vec<(usize, Op)> = vec![(0, Get), (0, Save(e(&[(0, 1)]))), (1, Get)];
+        // … then P0 moves on to {0→1,1→2} squashed, P1 is stale
+        let mut stale = base.clone(); stale.push((0, Save(e(&[(1, 2)]))));
+        // two heads: P0's {0→1,1→2} and stale P1's {0→1,1→1,2→1}
+        let mut two = stale.clone(); two.push((1, Save(e(&[(1, 1), (2, 1)]))));
+        let cross: Vec<(usize, Op)> = vec![(0, Get), (0, Save(e(&[(1, 1)]))), (1, Get), (0, Save(e(&[(1, 2)])))];
+        let quick = cfg.tier == Tier::Quick;
+        let plans: Vec<(&str, &Vec<(usize, Op)>, Vec<Vec<Op>>, usize, usize)> = vec![
+            ("all:save|save", &base, vec![vec![Save(e(&[(1, 1)]))], vec![Save(e(&[(1, 2)]))]], 1, 400),
+            ("all:save|stale-save", &stale, vec![vec![Save(e(&[(1, 1)]))], vec![Save(e(&[(1, 2)]))]], 0, 100),
+            // P0: {1→2} → {1→1}, P1 (stale, holds {1→1}): {1→1} → {1→2}: each result is the other's parent
+            ("all:save|stale-save-crossing", &cross, vec![vec![Save(e(&[(1, 1)]))], vec![Save(e(&[(1, 2)]))]], 0, 100),
+            ("all:save|get", &two, vec![vec![Save(e(&[(3, 1)]))], vec![Get]], 0, if quick { 150 } else { 5000 }),
+            ("all:lockedsave|lockedsave", &two, vec![vec![LockedSave(e(&[(3, 1)]))], vec![LockedSave(e(&[(3, 2)]))]], 0, if quick { 150 } else { 20000 }),
+            ("all:get|get", &two, vec![vec![Get], vec![Get]], 0, if quick { 100 } else { 20000 }),
+        ];
+        let mut notes = vec![];
+        for (label, setup, programs, max_crashes, budget) in plans {
+            for mode in [Mode::Working, Mode::Ineffective] {
+                let (n, done) = exhaustive(out, mode, 4, setup, &programs, max_crashes, budget * cfg.scale as usize, label);
+                notes.push(format!("{label} {mode:?}: {n}{}", if done { " (all)" } else { " (budget)" }));
+            }
+        }
+        out.note(format!("2-process schedule enumeration: {}", notes.join("; ")));
+    }
     // sizes small → large
     let rounds = cfg.n(6, 60);
     for round in 0..rounds {
